@@ -10,7 +10,7 @@ RULE = ('histories: a pool of objects is grown by every public derivation route 
         'every invalid configuration value is tried through attribute assignment, constructor keyword and Config.update. Non-trivial = the history contains a flag-raising or config-changing mutation after a derivation; distinct by full history.')
 ASSUMPTIONS = ['copy(), .T, flatten(), fxp_like() are documented shallow copies and outside the statement', 'Python reference semantics (is, ndarray views) are taken from the interpreter']
 ROUTES = ['ctor', 'like_kw', 'template', 'deepcopy', 'like_method', 'fxp_of_fxp', 'add', 'mul_const', 'invert', 'and_mask', 'lshift', 'rshift_expand', 'rshift_keep', 'np_sum', 'np_add', 'neg', 'getitem',
-          'T', 'flatten', 'ravel', 'fxp_like', 'np_transpose', 'np_clip', 'abs', 'equal']
+          'T', 'flatten', 'ravel', 'fxp_like', 'np_transpose', 'np_clip', 'abs', 'equal', 'iter_pair', 'elem', 'unpack']
 # routes whose result shares the value buffer with its source (model Alias.v: only getitem)
 VIEW_ROUTES = {'getitem'}
 
@@ -59,6 +59,13 @@ def derive(fx, np, rng, route, pool):
     if route == 'abs': return abs(src), src
     if route == 'equal':
         d = fx.Fxp(np.asarray(src.get_val()) * 0, True, 16, 6); d.equal(src); return d, src
+    if route in ('iter_pair', 'unpack'):
+        # two elements of ONE iteration over an array (for e in x / list(x) / a, b, c = x): siblings own their configuration, status and callbacks too
+        if not (np.asarray(src.val).ndim == 1 and np.asarray(src.val).size == 3): return src.deepcopy(), src
+        if route == 'unpack': a, b, c_ = src
+        else: it = list(src); a, b = it[0], it[2]
+        pool.append(a); return b, src
+    if route == 'elem': return (src[1] if np.asarray(src.val).ndim == 1 and np.asarray(src.val).size >= 2 else src.deepcopy()), src
     if route == 'getitem': return src[0:2] if np.asarray(src.val).ndim > 0 and np.asarray(src.val).size >= 2 else src.deepcopy(), src
     raise ValueError(route)
 
@@ -84,6 +91,8 @@ def run_history(rng, res, hist_id):
     log = []
     try:
         pool = [fx.Fxp(np.array([0.5, -1.0, 1.5]), True, 12, 4), fx.Fxp(np.array([0.25, 0.75, -0.5]), True, 10, 6, rounding='around')]
+        if hist_id % 2:      # every other history also holds an object of more than 64 bits (its codes are Python integers in an object array)
+            pool.append(fx.Fxp([2 ** 70 + 1, -5, 7], True, 80, 2, raw=True))
         parents = {}       # index of object -> index of the object whose buffer it views
         for _ in range(rng.randint(2, 6)):
             route = rng.choice(ROUTES)
@@ -284,6 +293,9 @@ def inputs_unchanged(rng, res):
         ('list_of_string_tuples', [('0b0101', '0b0011'), ('0b0001', '0b0110')]), ('list_of_string_arrays', [np.array(['0b0101', '0b0011']), np.array(['0b0001', '0b0110'])]),
         ('rendered_2d_bin', fx.Fxp([[1.5, -2.0], [0.25, 3.0]], True, 16, 4).bin()), ('rendered_2d_hex', fx.Fxp([[1.5, -2.0], [0.25, 3.0]], True, 16, 4).hex()),
         ('nested_3_levels', [[[1, 2], [3, 4]], [[5, 6], [7, 8]]]), ('list_of_int_arrays', [np.array([1, 2]), np.array([3, 4])]),
+        # numbers and strings mixed in one list, the number first / last / in the middle, flat and nested
+        ('number_then_strings', [3, '0b011', 5]), ('string_then_numbers', ['0b011', 3, 5]), ('float_then_string', [1.5, '0b0110', -2]), ('nested_number_then_string', [[1, '0b01'], [2, '0x3']]),
+        ('numbers_then_last_string', [7, 0, 2, '0x2']), ('tuple_number_then_string', (3, '0b011', 5)), ('list_of_mixed_tuples', [(1, '0b01'), ('0x3', 2)]),
     ]
     for name, c in containers:
         before = copy.deepcopy(c)
